@@ -370,6 +370,7 @@ class StmtMixin:
                 h = TNode("$NestHole", {"name": Cst(name), "init": cur}, site)
                 holes[name] = (cur, h)
                 fr.locals[name] = h
+                self.carried.append({"name": name, "site": site, "init": cur, "over": over, "hole": h, "updated": None, "step": None, "func": fr.where()})
         rec = self.start_recording()
         broke = False
         self.rep_stack.append(over)
@@ -386,6 +387,10 @@ class StmtMixin:
             self.stop_recording(rec, over, elem)
         for name, (init, h) in holes.items():
             new = fr.lookup(name)
+            for c in self.carried:
+                if c["hole"] is h:
+                    c["updated"] = new is not h
+                    c["step"] = None if new is h else new
             if new is h:
                 fr.locals[name] = init
             else:
